@@ -199,7 +199,8 @@ pub enum Op {
     LazyMulti(LazyMulti),
     /// drive a non-consuming iterator by an explicit next/next_back script (true = back);
     /// `clone_at`: clone the (shared) iterator before that step and drain the clone at the end
-    IterScript { v: usize, how: IterHow, script: Vec<bool>, clone_at: Option<usize> },
+    /// `skips[n]` > 0 turns step n into `nth(k)` / `nth_back(k)`
+    IterScript { v: usize, how: IterHow, script: Vec<bool>, skips: Vec<u8>, clone_at: Option<usize> },
     /// `clone_empty_in(target backend)`, move every element over and back (see rig)
     CloneEmptyIn { v: usize, target: Target },
     /// overwrite / swap element `at` of vector `v` through the given view (C13)
@@ -305,8 +306,12 @@ impl fmt::Display for Op {
     fn fmt(&self, f: &mut fmt::Formatter<'_>) -> fmt::Result {
         match self {
             Op::LazyMulti(m) => write!(f, "lazy^{}({:?} v{}[{}])x{:?}", m.depth, m.kind, m.w, m.j, m.uses),
-            Op::IterScript { v, how, script, clone_at } => write!(
-                f, "v{v}.{how:?}|{}|clone@{clone_at:?}", script.iter().map(|b| if *b { 'B' } else { 'F' }).collect::<String>()
+            Op::IterScript { v, how, script, skips, clone_at } => write!(
+                f, "v{v}.{how:?}|{}|clone@{clone_at:?}",
+                script.iter().enumerate().map(|(n, b)| {
+                    let k = skips.get(n).copied().unwrap_or(0);
+                    if k > 0 { format!("{}+{k}", if *b { 'B' } else { 'F' }) } else { (if *b { "B" } else { "F" }).to_string() }
+                }).collect::<String>()
             ),
             Op::CloneEmptyIn { v, target } => write!(f, "v{v}.clone_empty_in({target:?})"),
             Op::ViewWrite { v, at, via, id, w, j } => write!(f, "v{v}[{}] <-{via:?}- #{id} (v{w}[{j}])", idstr(*at as u64)),
